@@ -110,7 +110,31 @@ def jobs_c18(tier):
     return js
 
 
+def jobs_c20(tier):
+    js = [J("std", "fast"), J("nosimd", "fast"), J("nounroll", "fast"), J("nostd-sse2", "fast")]
+    if tier != "quick":
+        js += [J(c, "fast") for c in NOSTD[1:]] + [J("nosimd", "checked"), J("nounroll", "checked")]
+    return js
+
+
+def c20_driver_part(tier, seed, known):
+    import c20
+    return c20.driver_part(tier, seed, known)
+
+
 PLANS = {
+    "C20": {
+        "jobs": jobs_c20,
+        "driver_part": c20_driver_part,
+        "build_failure_is_violation": True,
+        "rule": "enumerated (exhaustive): for each of the 9 workspace crates every distinct effective feature set (power set of the declared "
+                "features incl. the implicit features of optional dependencies, closed under feature -> feature edges; lattice read from "
+                "cargo metadata at run time) plus the default set, each checked with cargo check --no-default-features --features <set>; "
+                "oracle: exit status 0. Generated: in each build configuration that changes which code runs (default, no_simd, no_unroll, "
+                "no-std compile-time dispatch) the ChaCha / BLAKE / JH / Groestl / Skein / Threefish generators are compared with the "
+                "reference models. Non-trivial = a feature set other than the defaults resp. a message/request of >= 1 byte; distinct = "
+                "effective feature set resp. FNV-1a of (configuration, case)",
+    },
     "C18": {
         "jobs": jobs_c18,
         "parallel": 3,
